@@ -154,7 +154,7 @@ theorem sim_guard {α : Type} {Ra : α → α → Prop} {c c' : Prop} [Decidable
 /-! ## the environments -/
 
 /-- the abstract environment of `e`: the level-only instance with the same basis, mode and flags -/
-def absEnv (e : Env) : Env := { e with t := 0, q := [], slots := 0 }
+def absEnv (e : Env) : Env := { e with t := 0, q := [], slots := 0, pflags := [] }
 
 section ops
 variable (e : Env) (hk : 0 ≤ k)
@@ -558,22 +558,33 @@ theorem headD_map_ne {α β : Type} (f : α → β) (l : List α) (a : α) (b : 
   | nil => exact absurd rfl h
   | cons x xs => rfl
 
+theorem headD_mapIdx_ne {α β : Type} (f : Nat → α → β) (l : List α) (a : α) (b : β) (h : l ≠ []) :
+    (l.mapIdx f).headD b = f 0 (l.headD a) := by
+  cases l with
+  | nil => exact absurd rfl h
+  | cons x xs => simp [List.mapIdx_cons]
+
+theorem mapIdx_ne_nil {α β : Type} (f : Nat → α → β) (l : List α) (h : l ≠ []) : l.mapIdx f ≠ [] := by
+  cases l with
+  | nil => exact absurd rfl h
+  | cons x xs => simp [List.mapIdx_cons]
+
 theorem rsub_factorize (e : Env) {p p' : SubPoly} (h : RSub p p') (n : Nat) :
     RSub (p.factorize e n).1 (p'.factorize (absEnv e) n).1 ∧
     RSub (p.factorize e n).2 (p'.factorize (absEnv e) n).2 ∧
     (p.factorize e n).2.lead = false := by
   have hd := h.degree
   refine ⟨⟨?_, ?_, ?_, ?_, ?_⟩, ⟨?_, ?_, ?_, ?_, ?_⟩, rfl⟩
-  · simp only [SubPoly.factorize]; intro h0; exact h.ne (List.map_eq_nil_iff.1 h0)
-  · simp only [SubPoly.factorize]; intro h0; exact h.ne' (List.map_eq_nil_iff.1 h0)
+  · simp only [SubPoly.factorize]; exact mapIdx_ne_nil _ _ h.ne
+  · simp only [SubPoly.factorize]; exact mapIdx_ne_nil _ _ h.ne'
   · simp only [SubPoly.factorize]
-    rw [headD_map_ne _ _ [] [] h.ne, headD_map_ne _ _ [] [] h.ne', factorizeF_len1, factorizeF_len1, h.len]
+    rw [headD_mapIdx_ne _ _ [] [] h.ne, headD_mapIdx_ne _ _ [] [] h.ne', factorizeF_len1, factorizeF_len1, h.len]
   · simp only [SubPoly.factorize]; exact h.maxDeg
   · simp only [SubPoly.factorize]; exact h.lead
-  · simp only [SubPoly.factorize]; intro h0; exact h.ne (List.map_eq_nil_iff.1 h0)
-  · simp only [SubPoly.factorize]; intro h0; exact h.ne' (List.map_eq_nil_iff.1 h0)
+  · simp only [SubPoly.factorize]; exact mapIdx_ne_nil _ _ h.ne
+  · simp only [SubPoly.factorize]; exact mapIdx_ne_nil _ _ h.ne'
   · simp only [SubPoly.factorize]
-    rw [headD_map_ne _ _ [] [] h.ne, headD_map_ne _ _ [] [] h.ne', factorizeF_len2, factorizeF_len2, h.len]
+    rw [headD_mapIdx_ne _ _ [] [] h.ne, headD_mapIdx_ne _ _ [] [] h.ne', factorizeF_len2, factorizeF_len2, h.len]
     rfl
   · simp only [SubPoly.factorize]; rw [h.maxDeg, hd]
   · simp only [SubPoly.factorize]
